@@ -228,9 +228,6 @@ class C07(Check):
                     length = {"exact": count, "short": max(1, count - 1 - len(op["vals"]) % 2), "long": count + 1 + len(op["vals"]) % 2}[op["len"]]
                     if dkind == "text":
                         length = count if op["len"] != "long" else length
-                        if count == 1 and not program.get("allow_known"):
-                            res.count("excluded_by_finding")
-                            continue
                     vals = (list(op["vals"]) + [None, 3, -2, 7, None, 1] * 4)[:length]
                     arr, exp = F.make_values(dkind, vals, max(count, length))
                     dt = op.get("dt", "native")
@@ -299,10 +296,7 @@ class C07(Check):
                     trial = model.copy()
                     (trial.remove_vertices if kind == "rmv" else trial.remove_cells)(positions)
                     if self.has_cells and not trial.cells and any(d["assoc"] == "CELL" for d in model.data.values()):
-                        # known finding: zero-length data arrays are not handled by the writer / reader
-                        if not program.get("allow_known"):
-                            res.count("excluded_by_finding")
-                            continue
+                        # (fixed finding: zero-length data arrays were not handled by the writer / reader)
                         zero_cells = ":no-cell-left"
                     arg = list(idx) if op["as"] == "list" else np.asarray(idx)
                     if model.data and positions != [count - 1]:
@@ -348,9 +342,6 @@ class C07(Check):
                         d["vals"] = {t: v for t, v in d["vals"].items() if t not in drop}
                     if self.has_cells and not cm.cells:
                         continue  # a cell object without cells: outcome not fixed by the statement
-                    if any(d["kind"] == "text" and len(d["vals"]) == 1 for d in model.data.values()):
-                        res.count("excluded_by_finding")  # one-entry text array is a bare string after reload
-                        continue
                     try:
                         new = obj.copy(mask=mask, name="masked")
                     except Exception as exc:
